@@ -352,7 +352,7 @@ def gen(tier, seed):
 RULE = ('one config = (field list over {plain u8, NaN-like, ignored, method} x rank assignment {default, every permutation of explicit ranks, single explicit incl. isize::MIN/MIN+1/MAX} '
         'x shape {struct, enum variant; named, tuple} x trait set {PartialOrd alone, Ord+PartialOrd with attributes on Ord(..) or on PartialOrd(..), Ord with hand-written PartialOrd}), rank spelled at random among the documented forms; '
         'inside a config both operands are arbitrary (all 2^8 values per field, NaN-like 255, all variant pairs). Non-trivial = all harnesses passed and the Equal/Less/Greater/None witnesses the config admits were SATISFIED.')
-BOUNDS = dict(max_fields='3 (plus two 4-field configs per shape kind)', max_variants=3, explicit_ranks=[-3, 0, 7, 'isize::MIN', 'isize::MIN+1', 'isize::MIN+2', 'isize::MAX'],
+BOUNDS = dict(max_fields='3 (plus two 4-field configs per shape kind, 4-5 field runs of ignored fields and four 13-field shapes)', max_variants=3, explicit_ranks=[-3, 0, 7, 'isize::MIN', 'isize::MIN+1', 'isize::MIN+2', 'isize::MAX'],
               outside=['rank values outside the listed ones (parsing arbitrary integers is macro-internal)', '>4 fields', 'field types other than u8 / Nan'])
 ASSUME = ['Kani 0.68 / CBMC 6.11 / CaDiCaL; rustc nightly-2026-08-21 x86_64 dev profile',
           'oracle = generator\'s own sort of (explicit rank | isize::MIN + position), written from the config',
